@@ -19,6 +19,7 @@ EXPLANATION = (
     "ambiguous kinds are silent. Rule C07.R3 (sibling call sites): a helper that reset calls with exactly the value it "
     "stores in a state field is, when step calls it too, given the value step stores in that field or an intermediate, "
     "never the superseded field of the incoming state (e.g. Snake samples the new fruit against the NEW body). Not decided: entity counts, position/grid agreement, conservation laws (numeric).")
+EXPLANATION += ' (R4) Connector: an action the mask forbids (connected agent) is not executed by step (borrowed from C04.R3b, one direction only).'
 
 GRID_WORLDS = ("Maze", "Cleaner", "PacMan", "Sokoban", "Snake", "Tetris", "Game2048", "Minesweeper", "Connector",
                "LevelBasedForaging", "RobotWarehouse")
@@ -33,6 +34,8 @@ def check(tier: str) -> Result:
     from . import wiring
     n_w = wiring.add_obligations(res, tree, "C07.R2", lambda ci: ci.module.name.startswith("jumanji.environments.") and not ci.module.name.endswith((".reward", ".done", ".types")))
     n_p = wiring.paired_call_args(res, tree, "C07.R3", "state", lambda ci: ci.name in GRID_WORLDS)
+    from .common import borrow
+    n_b = borrow(res, "c04", {"C04.R3b": "C07.R4"}, envs=["Connector"], only_if=lambda ob: "mask forbids" in ob.detail)
     per = {k.split(":")[1]: v for k, v in res.extra.get("axis_sites_per_environment", {}).items()}
     low = {e: (per.get(e, 0), m) for e, m in MIN_PER_ENV.items() if per.get(e, 0) < m}
     if (n < MIN_TOTAL or low) and not any(o.ok is False for o in res.obligations):
